@@ -628,7 +628,7 @@ func redactString(s string, nonEncryptedValue string) string {
 	if shouldEncrypt && encryptionKey != nil {
 		encrypted, err := Encrypt([]byte(s), encryptionKey)
 		if err != nil {
-			return s // Fallback to original if encryption fails
+			return nonEncryptedValue // Never fall back to the plaintext if encryption fails
 		}
 		return base64.StdEncoding.EncodeToString(encrypted)
 	}
